@@ -30,7 +30,7 @@ META = {
         "RefVlan device model: '<prefix> <list>' adds, 'undo|no <prefix> [remove] <list>' removes, 'undo <prefix> all' / '<prefix> none' clears",
         "VLAN numbers are concrete members of a small universe (symbolic numbers are realised by set hashing)",
     ],
-    "outside": ["overlapping lines", "huawei 'vlan N' blocks interplay with 'vlan batch'", "cisco vlan blocks with children",
+    "outside": ["overlapping lines", "cisco vlan blocks with children",
                 "universes larger than stated"],
     "bounds": {"quick": "universe {2,3,4,6,4094}, <=2 lines per side, 6 rules + collapse/expand over all subsets of an 8-element universe",
                "thorough": "universe {2,3,4,6,7,4094}, <=3 lines per side"},
@@ -275,6 +275,120 @@ def h_vlan(case: int) -> bool:
     return ok
 
 
+# ---------------------------------------------------------------- many scattered ranges at once (chunking paths)
+UW = list(range(2, 32, 2))          # 15 single-VLAN ranges
+WKEEP = [(), (0,), (7,), (14,), (0, 7), (3, 11), (0, 7, 14), (1, 2, 3), (0, 1, 2, 3, 4)]
+WADD = [(), (31,), (5, 4000)]
+WOLD = [15, 13, 11]
+
+
+def wide_case(k):
+    oi, ki, ai, li = digits(k, [len(WOLD), len(WKEEP), len(WADD), 2])
+    old = UW[:WOLD[oi]]
+    keep = [old[i] for i in WKEEP[ki] if i < len(old)]
+    new = sorted(set(keep) | set(WADD[ai]))
+    nl = 1 + li
+    return old, new, nl
+
+
+NW = len(WOLD) * len(WKEEP) * len(WADD) * 2
+WLO, WHI = rt.shard_range(NW)
+
+
+def check_wide(rule, k):
+    global CFGS
+    old, new, nl = wide_case(k)
+    so = splits(set(old), nl)[-1]
+    sn = splits(set(new), nl)[-1] if new else []
+    saved = CFGS
+    CFGS = [(sorted(old), so), (sorted(new), sn)]
+    try:
+        return check_vlan(rule, 0, 1)
+    finally:
+        CFGS = saved
+
+
+def h_wide(case: int) -> bool:
+    """
+    pre: WLO <= case < WHI
+    post: _ == True
+    """
+    c = pick(case, WHI, WLO)
+    with NoTracing():
+        ok, detail, kind, nt = check_wide(RULE, c)
+        rt.record({"rule": RULE, "wide": c}, ok, [RULE, "wide", c] if nt else None, detail=detail, fingerprint="C11:%s:%s" % (RULE, kind))
+    return ok
+
+
+# ---------------------------------------------------------------- huawei 'vlan N' blocks next to 'vlan batch' lines
+BLK = [3, 4094]
+
+
+def check_block(ci, cj, bsel):
+    """bsel: (vlan index, presence 0..3 = none / old only / new only / both)"""
+    from annet import api
+    hw, dev, rb, fmt, rev = ctx("huawei")
+    vi, pres = bsel
+    n = BLK[vi]
+    old_cfg, new_cfg = CFGS[ci], CFGS[cj]
+    old, new = build_tree("batch", old_cfg), build_tree("batch", new_cfg)
+    blk = "vlan %d" % n
+    # on a device a 'vlan N' block only exists for a VLAN that 'vlan batch' lists on the same side
+    if (pres in (1, 3) and n not in old_cfg[0]) or (pres in (2, 3) and n not in new_cfg[0]):
+        return True, None, "outside:block-without-batch-membership", False
+    if pres in (1, 3):
+        old[blk] = odict([("description x", odict())])
+    if pres in (2, 3):
+        new[blk] = odict([("description x", odict())])
+    s_old = set(old_cfg[0]) | ({n} if pres in (1, 3) else set())
+    s_new = set(new_cfg[0]) | ({n} if pres in (2, 3) else set())
+    base = {"old": tree_to_json(old), "new": tree_to_json(new)}
+    try:
+        _, patch = api._diff_and_patch(dev, old, new, None, None, False)
+        paths = [tuple(p) for p in fmt.cmd_paths(patch)]
+    except Exception as e:  # noqa
+        return False, dict(base, error=repr(e)), "exception:%s" % type(e).__name__, True
+    cur = set(s_old)
+    keep = s_old & s_new
+    for p in paths:
+        c = p[0]
+        if len(p) > 1:
+            continue
+        if c.startswith("undo vlan batch "):
+            cur -= parse_huawei(c[len("undo vlan batch "):])
+        elif c.startswith("vlan batch "):
+            cur |= parse_huawei(c[len("vlan batch "):])
+        elif re.fullmatch(r"undo vlan \d+", c):
+            cur.discard(int(c.split()[-1]))
+        elif re.fullmatch(r"vlan \d+", c):
+            cur.add(int(c.split()[-1]))
+        else:
+            return False, dict(base, paths=paths, cmd=c), "unexpected-command", True
+        if not keep <= cur:
+            return False, dict(base, paths=paths, after=c, state=sorted(cur), must_keep=sorted(keep)), "kept-vlan-removed-transiently", True
+    if cur != s_new:
+        return False, dict(base, paths=paths, final=sorted(cur), want=sorted(s_new)), "final-set-differs", True
+    return True, None, None, s_old != s_new
+
+
+NB = N * N * 8
+BLO, BHI = rt.shard_range(NB)
+
+
+def h_block(case: int) -> bool:
+    """
+    pre: BLO <= case < BHI
+    post: _ == True
+    """
+    c = pick(case, BHI, BLO)
+    with NoTracing():
+        i, j, b = digits(c, [N, N, 8])
+        ok, detail, kind, nt = check_block(i, j, (b // 4, b % 4))
+        rt.record({"block": b, "i": i, "j": j, "tier": rt.TIER}, ok, ["block", i, j, b] if nt else None, detail=detail,
+                  fingerprint="C11:batch+block:%s" % kind)
+    return ok
+
+
 # ---------------------------------------------------------------- collapse / expand round trip
 U8 = [1, 2, 3, 5, 6, 9, 4093, 4094]
 
@@ -333,6 +447,9 @@ def plan(tier):
     obs = []
     for r in RULES:
         obs.append(dict(name="vlan.%s" % r, func="h_vlan", shards=4 if q else 12, timeout=280 if q else 2400, env={"VT_RULE": r}))
+    for r in ("trunk", "hybrid", "batch", "swtrunk", "cvlan"):
+        obs.append(dict(name="wide.%s" % r, func="h_wide", shards=1, timeout=200, env={"VT_RULE": r}))
+    obs.append(dict(name="batch+block", func="h_block", shards=8 if q else 16, timeout=280 if q else 2400))
     obs.append(dict(name="roundtrip", func="h_roundtrip", shards=1, timeout=200))
     obs.append(dict(name="twin", func="h_twin", shards=1, timeout=100, expect="refuted"))
     return obs
@@ -344,9 +461,15 @@ def replay(obligation, case):
         ok, detail = check_roundtrip(case["mask"], case["flavour"])
         return {"ok": ok, "detail": detail,
                 "fingerprint": "C11:collapse-expand:%s" % ["huawei", "cisco", "cisco-catalyst"][case["flavour"]]}
+    if "wide" in case:
+        ok, detail, kind, _ = check_wide(case["rule"], case["wide"])
+        return {"ok": ok, "detail": detail, "fingerprint": "C11:%s:%s" % (case["rule"], kind)}
     tier = case.get("tier", "quick")
     U = U_QUICK if tier == "quick" else U_THOR
     MAXLINES = 2 if tier == "quick" else 3
     CFGS = configs(U, MAXLINES)
+    if "block" in case:
+        ok, detail, kind, _ = check_block(case["i"], case["j"], (case["block"] // 4, case["block"] % 4))
+        return {"ok": ok, "detail": detail, "fingerprint": "C11:batch+block:%s" % kind}
     ok, detail, kind, _ = check_vlan(case["rule"], case["i"], case["j"])
     return {"ok": ok, "detail": detail, "fingerprint": "C11:%s:%s" % (case["rule"], kind)}
